@@ -233,3 +233,538 @@ Example window_instance :
   window NumF (time_samples NumF 10%float 1%float 6%Z) (Some 11%float) (Some 14%float) true true = (1%nat, 5%nat)
   /\ window NumF (time_samples NumF 10%float 1%float 6%Z) (Some 11%float) (Some 14%float) false false = (2%nat, 4%nat).
 Proof. split; vm_compute; reflexivity. Qed.
+
+(* ============================================================================================ *)
+(* == The glue around the core (Model/RegistrationGlue.v; Proofs/RegistrationGlueProofs.v,      *)
+(* == Proofs/RegistrationGlueRealProofs.v)                                                      *)
+(* ============================================================================================ *)
+(* Now modelled: Probe.__init__'s dead_elements argument (any truthy spelling), the index vector
+   arange(n)[dead_elements], the pulse-echo MASK as the code builds it (three passes) with
+   boolean-mask indexing, the error precedence, numpy's argmax on floats (a NaN is the maximum),
+   np.abs on complex samples, Time.window as index arithmetic on the uniform grid,
+   Time.closest_index, and find_probe_loc_from_frontwall on the Probe OBJECT of C16's model
+   (Model/Probe.v): reset_position first, the move through Probe.rotate / Probe.translate with
+   the CoordinateSystem constructor checks, the returned tuple, the state left behind on errors. *)
+From Coq Require Import Lia.
+From Arim Require Import Model.Vec3 Proofs.Vec3Proofs Model.Probe Proofs.ProbeProofs
+  Model.RegistrationGlue Proofs.RegistrationGlueProofs Proofs.RegistrationGlueRealProofs.
+
+(* == dead elements: spelling of the flags, the index vector, the broadcast ======================= *)
+(* (every numeric instance, axiom-free) *)
+(* only "zero or not" matters: True / 1 / 255 / 2.5 for the same elements give the same flags *)
+Theorem dead_flags_any_truthy_spelling : forall n l l', map truthy l = map truthy l' ->
+  init_dead n (DeadEach l) = init_dead n (DeadEach l').
+Proof. exact init_dead_spelling. Qed.
+
+Theorem dead_flags_scalar_is_broadcast : forall n z,
+  init_dead n (DeadScalar z) = init_dead n (DeadEach (repeat z n)).
+Proof. exact init_dead_scalar_each. Qed.
+
+Theorem dead_flags_have_probe_length : forall n a m, init_dead n a = Some m -> length m = n.
+Proof. exact init_dead_length. Qed.
+
+(* arange(n)[dead_elements] lists exactly the elements whose flag is non zero *)
+Theorem dead_index_vector_spec : forall (l : list Z) (e : Z),
+  In e (mask_positions 0 (map truthy l)) <->
+  (0 <= e < Z.of_nat (length l))%Z /\ nth (Z.to_nat e) l 0%Z <> 0%Z.
+Proof. exact dead_set_of_spelling. Qed.
+
+(* np.any(v == dead_indices) is the flag of element v (False for anything that is not an element
+   index: a comparison does not wrap negative numbers) *)
+Theorem dead_broadcast_is_flag : forall dead e, any_eq (mask_positions 0 dead) e = is_dead dead e.
+Proof. exact any_eq_dead. Qed.
+
+(* had the flags stayed integers, arange(n)[flags] would be FANCY indexing: other elements *)
+Example integer_flags_would_be_fancy_indexing :
+  init_dead 3 (DeadEach [0; 1; 0]%Z) = Some [false; true; false] /\
+  dead_indices 3 [false; true; false] = Some [1%Z] /\
+  fancy_indices 3 [0; 1; 0]%Z = Some [0; 1; 0]%Z.
+Proof. repeat split. Qed.
+
+Example dead_flags_spellings :
+  init_dead 3 (DeadEach [0; 255; 0]%Z) = init_dead 3 (DeadEach [0; 1; 0]%Z) /\
+  init_dead 3 (DeadScalar 1%Z) = Some [true; true; true] /\ init_dead 3 DeadNone = Some [false; false; false] /\
+  init_dead 3 (DeadEach [0; 1]%Z) = None.
+Proof. repeat split. Qed.
+
+(* == the pulse-echo mask and boolean-mask indexing ================================================ *)
+(* the three passes of the code (tx == rx, clear where any(tx == dead), clear where any(rx == dead))
+   compute the predicate `pulse_echo` of Model/Registration.v, timetrace by timetrace *)
+Theorem pulse_echo_mask_spec : forall dead tx rx,
+  pe_mask (mask_positions 0 dead) tx rx = map (fun p => pulse_echo dead (fst p) (snd p)) (combine tx rx).
+Proof. exact pe_mask_spec. Qed.
+
+(* distance_to_surface[pulse_echo] and frame.tx[pulse_echo] are the distances / transmitters of the
+   selected timetraces, in frame order *)
+Theorem mask_indexing_selects : forall (T : Type) dead tx rx (ds : list T),
+  length tx = length rx -> length ds = length tx ->
+  bmask (pe_mask (mask_positions 0 dead) tx rx) ds = map tr_d (selected dead tx rx ds) /\
+  bmask (pe_mask (mask_positions 0 dead) tx rx) tx = map tr_tx (selected dead tx rx ds).
+Proof.
+  intros T dead tx rx ds H1 H2; rewrite pe_mask_spec;
+    exact (conj (bmask_distances dead tx rx ds) (bmask_transmitters dead tx rx ds H1 H2)).
+Qed.
+
+(* steps I-IV as written with masks, followed by the motion, ARE move_probe of Model/Registration.v
+   (so every theorem above about move_probe is about the code as written), for every numeric type *)
+Theorem move_probe_as_written : forall (T : Type) (N : Num T) fit pcs tx rx dead locs ds,
+  length dead = length locs -> length tx = length rx ->
+  move_probe N fit pcs tx rx dead locs ds = pose_result N pcs locs (fit_pose N fit pcs tx rx dead locs ds).
+Proof. intros T N; exact (move_probe_fit_pose N). Qed.
+
+(* == error precedence ============================================================================== *)
+(* the gate comes first: whatever else is wrong, a PCS that is not the GCS gives ValueError #1 ... *)
+Theorem gate_is_first : forall (T : Type) (N : Num T) fit pcs tx rx dead locs ds,
+  fit_pose N fit pcs tx rx dead locs ds = inl E_PcsNotGcs <-> cs_isclose N pcs (Registration.gcs N) = false.
+Proof. intros T N; exact (fit_pose_gate N). Qed.
+
+(* ... then "at least 2 pulse echo timetraces": exactly when fewer than two timetraces have tx = rx on a
+   live element; the distances (their number, sign, values) are not looked at *)
+Theorem too_few_pulse_echo_iff : forall (T : Type) (N : Num T) fit pcs tx rx dead locs ds,
+  length dead = length locs ->
+  (fit_pose N fit pcs tx rx dead locs ds = inl E_TooFewPulseEcho
+   <-> cs_isclose N pcs (Registration.gcs N) = true /\
+       (length (filter (fun p => pulse_echo dead (fst p) (snd p)) (combine tx rx)) < 2)%nat).
+Proof. intros T N; exact (fit_pose_too_few N). Qed.
+
+Theorem success_needs : forall (T : Type) (N : Num T) fit pcs tx rx dead locs ds z th,
+  length dead = length locs -> length tx = length rx ->
+  fit_pose N fit pcs tx rx dead locs ds = inr (z, th) ->
+  cs_isclose N pcs (Registration.gcs N) = true /\
+  (2 <= length (selected dead tx rx ds))%nat /\ length ds = length tx /\
+  forall t, In t (selected dead tx rx ds) -> nltb N (tr_d t) (n0 N) = false.
+Proof. intros T N; exact (fit_pose_ok_needs N). Qed.
+
+(* FMC and HMC frames (canonical order; any other order: registration_permutation_invariant): one
+   usable pulse-echo timetrace per live element, for every probe size and every dead set *)
+Theorem fmc_usable_timetraces : forall dead,
+  length (filter (fun p => pulse_echo dead (fst p) (snd p)) (fmc_pairs (length dead))) = length (filter negb dead).
+Proof. exact fmc_usable. Qed.
+
+Theorem hmc_usable_timetraces : forall dead,
+  length (filter (fun p => pulse_echo dead (fst p) (snd p)) (hmc_pairs (length dead))) = length (filter negb dead).
+Proof. exact hmc_usable. Qed.
+
+(* hence on an FMC / HMC frame the ValueError is raised exactly when fewer than two elements are alive *)
+Theorem fmc_too_few_iff_fewer_than_two_alive : forall (T : Type) (N : Num T) fit pcs dead locs ds,
+  length dead = length locs -> cs_isclose N pcs (Registration.gcs N) = true ->
+  (fit_pose N fit pcs (map fst (fmc_pairs (length dead))) (map snd (fmc_pairs (length dead))) dead locs ds
+   = inl E_TooFewPulseEcho <-> (length (filter negb dead) < 2)%nat).
+Proof. intros T N; exact (fit_pose_fmc_too_few N). Qed.
+
+Theorem hmc_too_few_iff_fewer_than_two_alive : forall (T : Type) (N : Num T) fit pcs dead locs ds,
+  length dead = length locs -> cs_isclose N pcs (Registration.gcs N) = true ->
+  (fit_pose N fit pcs (map fst (hmc_pairs (length dead))) (map snd (hmc_pairs (length dead))) dead locs ds
+   = inl E_TooFewPulseEcho <-> (length (filter negb dead) < 2)%nat).
+Proof. intros T N; exact (fit_pose_hmc_too_few N). Qed.
+
+(* a 3-element FMC with only element 1 alive: the error, on binary64, before any distance is read *)
+Example fmc_one_alive_raises :
+  fit_pose NumF (fit_line NumF) (Registration.gcs NumF)
+           (map fst (fmc_pairs 3)) (map snd (fmc_pairs 3)) [true; false; true]
+           [(0, 0, 0); (1, 0, 0); (2, 0, 0)]%float [] = inl E_TooFewPulseEcho.
+Proof. vm_compute. reflexivity. Qed.
+
+(* the gate, exactly: each of the nine numbers of the PCS within 1e-8 (absolute) of the GCS's *)
+Theorem gate_tolerance : forall o i j : vec3 R,
+  cs_isclose NumR (o, i, j) (Registration.gcs NumR) = true <->
+  (Rabs (Vec3.vx o) <= tolA /\ Rabs (Vec3.vy o) <= tolA /\ Rabs (Vec3.vz o) <= tolA) /\
+  (Rabs (Vec3.vx i - 1) <= tolA /\ Rabs (Vec3.vy i) <= tolA /\ Rabs (Vec3.vz i) <= tolA) /\
+  (Rabs (Vec3.vx j) <= tolA /\ Rabs (Vec3.vy j - 1) <= tolA /\ Rabs (Vec3.vz j) <= tolA).
+Proof. exact gate_iff. Qed.
+
+(* move_probe_over_flat_surface cannot be applied twice in a row: the probe it placed at a standoff of
+   more than 1e-8 is rejected, whatever the data (find_probe_loc_from_frontwall resets first: see
+   frontwall_idempotent) *)
+Theorem placed_probe_is_rejected_by_the_gate : forall fit th z0 tx rx dead locs ds,
+  tolA < Rabs z0 ->
+  fit_pose NumR fit ((0, 0, z0), (cos th, 0, - sin th), (0, 1, 0)) tx rx dead locs ds = inl E_PcsNotGcs.
+Proof. exact placed_probe_rejected. Qed.
+
+(* == detection: numpy's argmax, np.abs on complex samples, flat rows ================================ *)
+(* without NaN, numpy's argmax loop is the first maximum *)
+Theorem argmax_np_is_first_maximum : forall l, argmax_np NumR l = argmax_first NumR l.
+Proof. exact argmax_np_R. Qed.
+
+Theorem detection_real_samples : forall samples rows tmin tmax,
+  detect_surface_np NumR (nabs NumR) samples rows tmin tmax = detect_surface NumR samples rows tmin tmax.
+Proof. exact detect_surface_np_real. Qed.
+
+(* samples of any type with a non-negative magnitude (np.abs): the detection is the real-valued one
+   on the magnitudes, so window_spec / extrema_spec / extrema_complete apply to them *)
+Theorem detection_on_magnitudes : forall (A : Type) (mag : A -> R) samples (rows : list (list A)) tmin tmax,
+  (forall a, 0 <= mag a) ->
+  detect_surface_np NumR mag samples rows tmin tmax = detect_surface NumR samples (map (map mag) rows) tmin tmax.
+Proof. exact @detect_surface_np_mag. Qed.
+
+(* complex (analytic) timetraces: the extremum of the modulus sqrt(re^2 + im^2) *)
+Theorem detection_complex_samples : forall samples (rows : list (list (R * R))) tmin tmax,
+  detect_surface_np NumR (cabs NumR) samples rows tmin tmax
+  = detect_surface NumR samples (map (map (cabs NumR)) rows) tmin tmax.
+Proof. exact detect_surface_np_complex. Qed.
+
+(* a row whose |samples| are all equal inside the window (all-zero row of a dead channel, clipped
+   row): the FIRST sample time of the window *)
+Theorem flat_row_gives_first_window_sample : forall samples imin imax row,
+  length row = length samples -> (imax <= length samples)%nat -> (imin < imax)%nat ->
+  (forall j, (imin <= j < imax)%nat -> Rabs (nth j row 0) = Rabs (nth imin row 0)) ->
+  detect_trace NumR samples imin imax row = Some (nth imin samples 0).
+Proof. exact detect_trace_flat. Qed.
+
+Example flat_row_instance :
+  detect_trace NumR [10; 11; 12; 13] 1 3 [5; -2; 2; 7] = Some 11.
+Proof.
+  apply (detect_trace_flat [10; 11; 12; 13] 1 3 [5; -2; 2; 7]); try reflexivity; try (cbn [length]; lia).
+  intros j Hj. assert (j = 1 \/ j = 2)%nat as [-> | ->] by lia; cbn [nth]; [reflexivity|].
+  rewrite <- (Rabs_Ropp (-2)). f_equal. lra.
+Qed.
+
+(* binary64 executions.  numpy: a NaN is the maximum, the first NaN wins; an all-zero row gives the
+   first sample of the window; a NaN before the window is not seen *)
+Example argmax_np_first_nan :
+  argmax_np NumF [1; 3; nan; 5; nan; 0.5]%float = Some 2%nat /\
+  argmax_np NumF [nan; 7]%float = Some 0%nat /\ argmax_np NumF [2; 7; 7; 1]%float = Some 1%nat /\
+  argmax_np NumF ([] : list float) = None.
+Proof. repeat split; vm_compute; reflexivity. Qed.
+
+(* (the first-maximum loop of Model/Registration.v is NOT numpy's argmax on a row that contains a NaN
+   after its first sample: it skips the NaN.  Real-valued theorems are unaffected.) *)
+Example argmax_first_skips_nan : argmax_first NumF [1; 3; nan; 5; nan; 0.5]%float = Some 3%nat.
+Proof. vm_compute. reflexivity. Qed.
+
+Example detect_surface_np_nan_and_zero_rows :
+  let rows := [[1; 3; nan; 5; nan; 0.5]; [0; 0; 0; 0; 0; 0]; [nan; 1; 2; 3; 4; 5]]%float in
+  detect_surface_np NumF (nabs NumF) (time_samples NumF 10%float 1%float 6%Z) rows None None
+    = Some [12; 10; 10]%float /\
+  detect_surface_np NumF (nabs NumF) (time_samples NumF 10%float 1%float 6%Z) rows (Some 11%float) (Some 14%float)
+    = Some [12; 11; 14]%float /\
+  detect_surface_np NumF (nabs NumF) (time_samples NumF 10%float 1%float 6%Z) rows (Some 10.5%float) (Some 13.5%float)
+    = Some [12; 11; 13]%float /\
+  detect_surface_np NumF (nabs NumF) (time_samples NumF 10%float 1%float 6%Z) rows (Some 12%float) (Some 11%float)
+    = None.
+Proof. repeat split; vm_compute; reflexivity. Qed.
+
+Example detect_surface_np_complex_instance :
+  detect_surface_np NumF (cabs NumF) (time_samples NumF 0%float 0.5%float 4%Z)
+    [[(1, 0); (3, 4); (0, -5); (4, 4)]; [(0, 0); (0, 0); (0, 0); (0, 0)]]%float None (Some 1%float)
+  = Some [0.5; 0]%float.
+Proof. vm_compute. reflexivity. Qed.
+
+(* == Time.window on the uniform grid: index arithmetic ============================================== *)
+(* searchsorted(samples, v, 'left') = clip(ceil((v - start) / step), 0, num),
+   searchsorted(samples, v, 'right') = clip(floor((v - start) / step) + 1, 0, num) *)
+Theorem searchsorted_left_closed_form : forall start step num v, 0 < step ->
+  ss_left NumR (time_samples NumR start step num) v = Z.to_nat (lo_index start step num v).
+Proof. exact ss_left_uniform. Qed.
+
+Theorem searchsorted_right_closed_form : forall start step num v, 0 < step ->
+  ss_right NumR (time_samples NumR start step num) v = Z.to_nat (hi_index start step num v).
+Proof. exact ss_right_uniform. Qed.
+
+(* Time.window: None bounds, bounds between samples, on samples, before the start, after the end *)
+Theorem window_closed_form : forall start step num tmin tmax endl endr, 0 < step ->
+  window NumR (time_samples NumR start step num) tmin tmax endl endr
+  = (match tmin with
+     | None => O
+     | Some v => Z.to_nat (if endl then lo_index start step num v else hi_index start step num v)
+     end,
+     match tmax with
+     | None => Z.to_nat num
+     | Some v => Z.to_nat (if endr then hi_index start step num v else lo_index start step num v)
+     end).
+Proof. exact window_uniform. Qed.
+
+(* the detected times are grid points start + k step with lo(tmin) <= k < hi(tmax) *)
+Theorem detected_times_on_grid : forall start step num rows tmin tmax times, 0 < step ->
+  (forall row, In row rows -> length row = Z.to_nat num) ->
+  detect_surface NumR (time_samples NumR start step num) rows tmin tmax = Some times ->
+  forall r, (r < length rows)%nat ->
+    exists k : nat,
+      (match tmin with None => 0 | Some v => lo_index start step num v end <= Z.of_nat k
+       < match tmax with None => Z.max 0 num | Some v => hi_index start step num v end)%Z /\
+      nth r times 0 = INR k * step + start.
+Proof. exact detect_surface_uniform. Qed.
+
+(* 0 < step is satisfiable and the closed form is what the model computes on binary64 *)
+Example window_closed_form_instance :
+  window NumF (time_samples NumF 10%float 1%float 6%Z) (Some 10.5%float) (Some 13.5%float) true true = (1%nat, 4%nat) /\
+  window NumF (time_samples NumF 10%float 1%float 6%Z) None (Some 13.5%float) true true = (0%nat, 4%nat) /\
+  window NumF (time_samples NumF 10%float 1%float 6%Z) (Some 9%float) None true true = (0%nat, 6%nat) /\
+  window NumF (time_samples NumF 10%float 1%float 6%Z) (Some 100%float) None true true = (6%nat, 6%nat) /\
+  window NumF (time_samples NumF 10%float 1%float 6%Z) (Some 12%float) (Some 11%float) true true = (2%nat, 2%nat).
+Proof. repeat split; vm_compute; reflexivity. Qed.
+
+Example lo_hi_index_instance :
+  lo_index 10 1 6 (21 / 2) = 1%Z /\ hi_index 10 1 6 (27 / 2) = 4%Z /\ lo_index 10 1 6 12 = 2%Z /\ hi_index 10 1 6 12 = 3%Z.
+Proof.
+  unfold lo_index, hi_index.
+  replace ((21 / 2 - 10) / 1) with (1 / 2) by field. replace ((27 / 2 - 10) / 1) with (7 / 2) by field.
+  replace ((12 - 10) / 1) with (IZR 2) by (simpl; field).
+  rewrite Raux.Zceil_IZR, Raux.Zfloor_IZR.
+  rewrite (Raux.Zceil_imp 1 (1 / 2)) by (simpl; lra). rewrite (Raux.Zfloor_imp 3 (7 / 2)) by (simpl; lra).
+  repeat split.
+Qed.
+
+(* Time.closest_index: the first sample nearest to the requested time *)
+Theorem closest_index_is_first_nearest : forall samples t r, closest_index NumR samples t = Some r ->
+  (r < length samples)%nat /\
+  (forall j, (j < length samples)%nat -> Rabs (nth r samples 0 - t) <= Rabs (nth j samples 0 - t)) /\
+  (forall j, (j < r)%nat -> Rabs (nth r samples 0 - t) < Rabs (nth j samples 0 - t)).
+Proof. exact closest_index_spec. Qed.
+
+Theorem closest_index_raises_iff_no_sample : forall samples t, closest_index NumR samples t = None <-> samples = [].
+Proof. exact closest_index_none. Qed.
+
+Example closest_index_instance :
+  closest_index NumF (time_samples NumF 10%float 1%float 6%Z) 12.5%float = Some 2%nat /\
+  closest_index NumF (time_samples NumF 10%float 1%float 6%Z) 99%float = Some 5%nat.
+Proof. split; vm_compute; reflexivity. Qed.
+
+(* == find_probe_loc_from_frontwall on the Probe object ============================================== *)
+(* step V on the object (Probe.rotate(rotation_matrix_y(theta)) then Probe.translate((0, 0, z_o)), with
+   the CoordinateSystem constructor checks) = the motion of move_probe on the raw coordinates; the
+   element normals turn with the probe; nothing raises *)
+Theorem move_on_the_object : forall fit (p : probe (T:=R)) dead tx rx ds,
+  frame_ok (p_pcs p) -> length dead = length (p_locs p) -> length tx = length rx ->
+  move_probe_obj NumR fit p dead tx rx ds =
+  match move_probe NumR fit (cs_of (p_pcs p)) tx rx dead (p_locs p) ds with
+  | inl e => MvRaised e
+  | inr r => MvOk (mkProbe (mr_locs r)
+                           (option_map (map (mvec NumR (rotation_matrix_y NumR (mr_theta r)))) (p_oris p))
+                           (csys_of (mr_pcs r)))
+                  (mr_z_o r) (mr_theta r)
+  end.
+Proof. exact move_probe_obj_R. Qed.
+
+(* the whole function, for a probe in ANY pose (orthonormal PCS) and real or complex samples, is
+   find_probe_loc of Model/Registration.v on the PCS coordinates: the returned tuple is
+   (z_o, theta, times); on an exception the probe is left RESET; on success it is the moved probe.
+   This discharges the caveat "the model starts from the PCS coordinates with PCS = GCS" of the
+   theorems above. *)
+Theorem frontwall_on_the_objects : forall (A : Type) (mag : A -> R) fit (p : probe (T:=R)) dead
+    start step num (rows : list (list A)) tx rx c tmin tmax,
+  (forall a, 0 <= mag a) -> frame_ok (p_pcs p) -> length dead = length (p_locs p) -> length tx = length rx ->
+  frontwall_obj NumR mag fit p dead start step num rows tx rx c tmin tmax =
+  match find_probe_loc NumR fit start step num (map (map mag) rows) tx rx dead (locations_pcs NumR p) c tmin tmax with
+  | inl e => FwRaised (reset_probe p) e
+  | inr (r, times) =>
+      FwOk (mkProbe (mr_locs r)
+                    (option_map (map (mvec NumR (rotation_matrix_y NumR (mr_theta r)))) (p_oris (reset_probe p)))
+                    (csys_of (mr_pcs r)))
+           (mr_z_o r) (mr_theta r) times
+  end.
+Proof. exact @frontwall_obj_R. Qed.
+
+(* no CoordinateSystem setter raises (exact arithmetic) *)
+Theorem frontwall_never_raises_from_a_setter : forall (A : Type) (mag : A -> R) fit (p : probe (T:=R)) dead
+    start step num (rows : list (list A)) tx rx c tmin tmax,
+  frame_ok (p_pcs p) ->
+  forall q, frontwall_obj NumR mag fit p dead start step num rows tx rx c tmin tmax <> FwCsRaised q.
+Proof. exact @frontwall_obj_no_cs_error. Qed.
+
+(* a failed registration has already moved the probe: it is left where reset_position put it *)
+Theorem failed_registration_leaves_the_probe_reset : forall (A : Type) (mag : A -> R) fit (p : probe (T:=R)) dead
+    start step num (rows : list (list A)) tx rx c tmin tmax p1 e,
+  frame_ok (p_pcs p) ->
+  frontwall_obj NumR mag fit p dead start step num rows tx rx c tmin tmax = FwRaised p1 e ->
+  p1 = reset_probe p.
+Proof. exact @frontwall_obj_raised_state. Qed.
+
+(* reset_position comes first: the outcome depends on the probe only through its PCS view; the pose it
+   has in the GCS at the time of the call is irrelevant ... *)
+Theorem frontwall_depends_on_the_pcs_view_only : forall (A : Type) (mag : A -> R) fit (p p' : probe (T:=R)) dead
+    start step num (rows : list (list A)) tx rx c tmin tmax,
+  frame_ok (p_pcs p) -> frame_ok (p_pcs p') ->
+  locations_pcs NumR p' = locations_pcs NumR p -> orientations_pcs NumR p' = orientations_pcs NumR p ->
+  frontwall_obj NumR mag fit p' dead start step num rows tx rx c tmin tmax
+  = frontwall_obj NumR mag fit p dead start step num rows tx rx c tmin tmax.
+Proof. exact @frontwall_obj_pcs_view. Qed.
+
+(* ... in particular any rigid motion x -> M x + t (M a proper rotation) of the probe before the call *)
+Theorem frontwall_initial_pose_irrelevant : forall (A : Type) (mag : A -> R) fit (n : nat) (M : mat3 R) (t : vec3 R)
+    (p p' : probe (T:=R)) dead start step num (rows : list (list A)) tx rx c tmin tmax,
+  proper_rotation NumR M -> moved M t p p' -> good n p ->
+  frontwall_obj NumR mag fit p' dead start step num rows tx rx c tmin tmax
+  = frontwall_obj NumR mag fit p dead start step num rows tx rx c tmin tmax.
+Proof. exact @frontwall_obj_moved. Qed.
+
+(* a successful registration moved the probe rigidly: PCS coordinates of elements and normals unchanged *)
+Theorem registered_probe_keeps_its_pcs_view : forall (A : Type) (mag : A -> R) fit (n : nat) (p q : probe (T:=R)) dead
+    start step num (rows : list (list A)) tx rx c tmin tmax z th times,
+  good n p ->
+  frontwall_obj NumR mag fit p dead start step num rows tx rx c tmin tmax = FwOk q z th times ->
+  good n q /\ locations_pcs NumR q = locations_pcs NumR p /\ orientations_pcs NumR q = orientations_pcs NumR p.
+Proof. exact @frontwall_obj_ok_view. Qed.
+
+(* registration is idempotent: on the registered probe with the same data it returns the same tuple
+   and leaves the probe in place *)
+Theorem frontwall_idempotent : forall (A : Type) (mag : A -> R) fit (n : nat) (p q : probe (T:=R)) dead
+    start step num (rows : list (list A)) tx rx c tmin tmax z th times,
+  good n p ->
+  frontwall_obj NumR mag fit p dead start step num rows tx rx c tmin tmax = FwOk q z th times ->
+  frontwall_obj NumR mag fit q dead start step num rows tx rx c tmin tmax = FwOk q z th times.
+Proof. exact @frontwall_obj_idempotent. Qed.
+
+(* registration_recovers end to end on the objects: a probe whose elements lie on Ox of its PCS, in any
+   pose at the time of the call; echoes (real or complex) whose detected times t satisfy t c / 2 = true
+   distance on the usable pulse-echo timetraces => returns (z0, th, times); elements at
+   (cos th x, 0, -d), PCS origin (0, 0, z0), axes (cos th, 0, -sin th), (0, 1, 0) *)
+Theorem frontwall_registration_recovers_on_objects : forall (A : Type) (mag : A -> R) fit (p : probe (T:=R))
+    xs th z0 dead tx rx start step num (rows : list (list A)) (c : R) tmin tmax times,
+  is_ls_minimiser fit -> (forall a, 0 <= mag a) ->
+  frame_ok (p_pcs p) -> locations_pcs NumR p = on_axis xs -> length dead = length xs ->
+  - (PI / 2) <= th <= PI / 2 ->
+  detect_surface NumR (time_samples NumR start step num) (map (map mag) rows) tmin tmax = Some times ->
+  length tx = length rx -> length times = length tx ->
+  (2 <= length (selected dead tx rx (map (fun t => (t * c / 2)%R) times)))%nat ->
+  (forall t, In t (selected dead tx rx (map (fun t => (t * c / 2)%R) times)) ->
+     (0 <= tr_tx t < Z.of_nat (length xs))%Z /\ tr_d t = sin th * trace_x xs t - z0 /\ 0 <= tr_d t) ->
+  isclose NumR (lmin NumR (map (trace_x xs) (selected dead tx rx (map (fun t => (t * c / 2)%R) times))))
+               (lmax NumR (map (trace_x xs) (selected dead tx rx (map (fun t => (t * c / 2)%R) times)))) = false ->
+  frontwall_obj NumR mag fit p dead start step num rows tx rx c tmin tmax
+  = FwOk (mkProbe (map (fun x => (cos th * x, 0, - (sin th * x - z0))) xs)
+                  (option_map (map (mvec NumR (rotation_matrix_y NumR th))) (p_oris (reset_probe p)))
+                  (mkCS (0, 0, z0) (cos th, 0, - sin th) (0, 1, 0)))
+         z0 th times.
+Proof. exact @frontwall_obj_recovers. Qed.
+
+(* == the whole function: unused timetraces, timetrace order ========================================== *)
+(* the sample rows of non-pulse-echo and dead-element timetraces are processed by the detection but
+   never matter: same error, or same pose and same detected times on every usable timetrace *)
+Theorem frontwall_ignores_unused_rows : forall fit start step num rows1 rows2 tx rx dead locs (c : R) tmin tmax,
+  length rows1 = length rows2 ->
+  (forall row, In row rows1 \/ In row rows2 -> length row = Z.to_nat num) ->
+  (forall i, pulse_echo dead (nth i tx 0%Z) (nth i rx 0%Z) = true -> nth i rows1 [] = nth i rows2 []) ->
+  same_registration tx rx dead
+    (find_probe_loc NumR fit start step num rows1 tx rx dead locs c tmin tmax)
+    (find_probe_loc NumR fit start step num rows2 tx rx dead locs c tmin tmax).
+Proof. exact find_probe_loc_unused_rows. Qed.
+
+(* any order of the timetraces (tx, rx and the sample rows permuted together): same error, or same pose
+   and the detected times permuted the same way *)
+Theorem frontwall_timetrace_order_irrelevant : forall fit start step num rows rows' tx rx tx' rx' dead locs (c : R) tmin tmax,
+  is_ls_minimiser fit ->
+  length tx = length rx -> length rows = length tx -> length tx' = length rx' -> length rows' = length tx' ->
+  (forall row, In row rows \/ In row rows' -> length row = Z.to_nat num) ->
+  Permutation (combine (combine tx rx) rows) (combine (combine tx' rx') rows') ->
+  same_registration_perm tx rx tx' rx'
+    (find_probe_loc NumR fit start step num rows tx rx dead locs c tmin tmax)
+    (find_probe_loc NumR fit start step num rows' tx' rx' dead locs c tmin tmax).
+Proof. exact find_probe_loc_perm. Qed.
+
+(* == non-vacuity of the object-level theorems: one concrete registration ============================= *)
+(* a two-element probe (pitch 1, reference = element 0) lying displaced at (5, 0, 7) *)
+Definition ex_probe : probe (T:=R) :=
+  mkProbe [(5, 0, 7); (6, 0, 7)] None (mkCS (5, 0, 7) (1, 0, 0) (0, 1, 0)).
+(* three timetraces in a non-canonical order: (1,1), (0,1), (0,0); echo of height 1 at the first of
+   the two samples t = 2, 3 on the pulse-echo timetraces, elsewhere on the cross timetrace *)
+Definition ex_rows : list (list R) := [[1; 0]; [0; 1]; [1; 0]].
+Definition ex_times : list R := [0 * 1 + 2; 1 * 1 + 2; 0 * 1 + 2].
+
+Example ex_probe_frame_ok : frame_ok (p_pcs ex_probe).
+Proof. unfold frame_ok, unit_v, ex_probe. cbn [p_pcs cs_i cs_j]. v3_unfold. repeat split; ring. Qed.
+
+Example ex_probe_good : good 2 ex_probe.
+Proof. split; [exact ex_probe_frame_ok|]. split; [reflexivity | exact I]. Qed.
+
+Example ex_probe_on_axis : locations_pcs NumR ex_probe = on_axis [0; 1].
+Proof.
+  unfold locations_pcs, ex_probe, on_axis. cbn [p_locs p_pcs map]. rewrite !cs_from_gcs_R.
+  unfold cs_axes, cs_k. cbn [cs_o cs_i cs_j]. v3_unfold. repeat f_equal; ring.
+Qed.
+
+Example ex_detect :
+  detect_surface NumR (time_samples NumR 2 1 2) (map (map Rabs) ex_rows) None None = Some ex_times.
+Proof.
+  assert (time_samples NumR 2 1 2 = [0 * 1 + 2; 1 * 1 + 2]) as -> by reflexivity.
+  unfold ex_rows. cbn [map]. rewrite !Rabs_R1, !Rabs_R0.
+  unfold detect_surface, window. cbn [fst snd length slice Nat.sub skipn firstn map].
+  assert (forall row i, (i < 2)%nat ->
+            (forall j, (j < 2)%nat -> Rabs (nth j row 0) <= Rabs (nth i row 0)) ->
+            (forall j, (j < i)%nat -> Rabs (nth j row 0) < Rabs (nth i row 0)) -> length row = 2%nat ->
+            detect_trace NumR [0 * 1 + 2; 1 * 1 + 2] 0 2 row = Some (nth i [0 * 1 + 2; 1 * 1 + 2] 0)) as Hrow.
+  { intros row i Hi Hall Hfirst HL. apply detect_trace_complete; [exact HL | apply le_n | lia | |].
+    - intros j Hj. apply Hall. lia.
+    - intros j Hj. apply Hfirst. lia. }
+  rewrite (Hrow [1; 0] 0%nat), (Hrow [0; 1] 1%nat); try reflexivity; try lia;
+    try (intros j Hj; assert (j = 0 \/ j = 1)%nat as [-> | ->] by lia; cbn [nth]; rewrite ?Rabs_R1, ?Rabs_R0; first [lra | lia]).
+Qed.
+
+Example frontwall_objects_instance :
+  frontwall_obj NumR Rabs fit_total ex_probe [false; false] 2 1 2 ex_rows [1; 0; 0]%Z [1; 1; 0]%Z 1 None None
+  = FwOk (mkProbe (map (fun x => (cos 0 * x, 0, - (sin 0 * x - (-1)))) [0; 1]) None
+                  (mkCS (0, 0, -1) (cos 0, 0, - sin 0) (0, 1, 0)))
+         (-1) 0 ex_times.
+Proof.
+  set (ds := map (fun t => (t * 1 / 2)%R) ex_times).
+  assert (selected [false; false] [1; 0; 0]%Z [1; 1; 0]%Z ds
+          = [((1, 1)%Z, (0 * 1 + 2) * 1 / 2); ((0, 0)%Z, (0 * 1 + 2) * 1 / 2)]) as Hsel by reflexivity.
+  apply (frontwall_obj_recovers Rabs fit_total ex_probe [0; 1] 0 (-1) [false; false] [1; 0; 0]%Z [1; 1; 0]%Z
+           2 1 2%Z ex_rows 1 None None ex_times).
+  - exact fit_total_is_ls_minimiser.
+  - exact Rabs_pos.
+  - exact ex_probe_frame_ok.
+  - exact ex_probe_on_axis.
+  - reflexivity.
+  - pose proof PI_RGT_0. lra.
+  - exact ex_detect.
+  - reflexivity.
+  - reflexivity.
+  - fold ds. rewrite Hsel. cbn [length]. apply le_n.
+  - fold ds. rewrite Hsel. intros t [<- | [<- | []]]; unfold trace_x, tr_tx, tr_d;
+      cbn [fst snd length nth Z.to_nat Pos.to_nat Pos.iter_op Nat.add]; rewrite sin_0;
+      (split; [split; [apply Z.leb_le | apply Z.ltb_lt]; reflexivity | split; lra]).
+  - fold ds. rewrite Hsel.
+    assert (map (trace_x [0; 1]) [((1, 1)%Z, (0 * 1 + 2) * 1 / 2); ((0, 0)%Z, (0 * 1 + 2) * 1 / 2)] = [1; 0]) as -> by reflexivity.
+    apply (spread_not_close _ 0 1 1).
+    + right. left. reflexivity.
+    + left. reflexivity.
+    + intros x [<- | [<- | []]]; [rewrite Rabs_R1 | rewrite Rabs_R0]; lra.
+    + replace (0 - 1) with (- (1)) by ring. rewrite Rabs_Ropp, Rabs_R1. unfold tolA, tolR. lra.
+Qed.
+
+(* hence the hypothesis of frontwall_idempotent is satisfiable, and its conclusion on this instance *)
+Example frontwall_idempotent_instance :
+  let q := mkProbe (map (fun x => (cos 0 * x, 0, - (sin 0 * x - (-1)))) [0; 1]) None
+                   (mkCS (0, 0, -1) (cos 0, 0, - sin 0) (0, 1, 0)) in
+  frontwall_obj NumR Rabs fit_total q [false; false] 2 1 2 ex_rows [1; 0; 0]%Z [1; 1; 0]%Z 1 None None
+  = FwOk q (-1) 0 ex_times.
+Proof.
+  exact (frontwall_obj_idempotent Rabs fit_total 2 ex_probe _ [false; false] 2 1 2%Z ex_rows [1; 0; 0]%Z [1; 1; 0]%Z 1 None None
+           (-1) 0 ex_times ex_probe_good frontwall_objects_instance).
+Qed.
+
+(* the same probe brought back to the origin (PCS = GCS) gives the same outcome *)
+Example frontwall_initial_pose_instance :
+  frontwall_obj NumR Rabs fit_total (mkProbe [(0, 0, 0); (1, 0, 0)] None (Probe.gcs NumR)) [false; false] 2 1 2 ex_rows
+                [1; 0; 0]%Z [1; 1; 0]%Z 1 None None
+  = frontwall_obj NumR Rabs fit_total ex_probe [false; false] 2 1 2 ex_rows [1; 0; 0]%Z [1; 1; 0]%Z 1 None None.
+Proof.
+  apply frontwall_obj_pcs_view; [exact ex_probe_frame_ok | exact gcs_frame_ok | | reflexivity].
+  rewrite ex_probe_on_axis. unfold locations_pcs, on_axis. cbn [p_locs p_pcs map]. rewrite !cs_from_gcs_R.
+  unfold cs_axes, cs_k, Probe.gcs. cbn [cs_o cs_i cs_j]. v3_unfold. repeat f_equal; ring.
+Qed.
+
+(* garbage on the cross timetrace (0, 1): same registration *)
+Example frontwall_unused_rows_instance :
+  same_registration [1; 0; 0]%Z [1; 1; 0]%Z [false; false]
+    (find_probe_loc NumR fit_total 2 1 2 [[1; 0]; [0; 1]; [1; 0]] [1; 0; 0]%Z [1; 1; 0]%Z [false; false] (on_axis [0; 1]) 1 None None)
+    (find_probe_loc NumR fit_total 2 1 2 [[1; 0]; [7; -9]; [1; 0]] [1; 0; 0]%Z [1; 1; 0]%Z [false; false] (on_axis [0; 1]) 1 None None).
+Proof.
+  apply find_probe_loc_unused_rows.
+  - reflexivity.
+  - intros row [H | H]; cbn [In] in H; intuition (subst; reflexivity).
+  - intros [| [| [| i]]] H; try reflexivity; discriminate H.
+Qed.
+
+(* the canonical order (0,0), (0,1), (1,1) instead of (1,1), (0,1), (0,0) *)
+Example frontwall_order_instance :
+  same_registration_perm [1; 0; 0]%Z [1; 1; 0]%Z [0; 0; 1]%Z [0; 1; 1]%Z
+    (find_probe_loc NumR fit_total 2 1 2 [[1; 0]; [0; 1]; [2; 0]] [1; 0; 0]%Z [1; 1; 0]%Z [false; false] (on_axis [0; 1]) 1 None None)
+    (find_probe_loc NumR fit_total 2 1 2 [[2; 0]; [0; 1]; [1; 0]] [0; 0; 1]%Z [0; 1; 1]%Z [false; false] (on_axis [0; 1]) 1 None None).
+Proof.
+  apply find_probe_loc_perm; try reflexivity.
+  - exact fit_total_is_ls_minimiser.
+  - intros row [H | H]; cbn [In] in H; intuition (subst; reflexivity).
+  - cbn [combine]. apply Permutation_rev.
+Qed.
